@@ -37,23 +37,41 @@ pub fn decode(src: &mut &[u8], dst: &mut [u8], state_count: usize) -> io::Result
     Ok(())
 }
 
-pub fn normalize_frequencies(frequencies: &mut [u32; ALPHABET_SIZE], bits: u32) {
-    let mut sum: u32 = frequencies.iter().sum();
+pub fn normalize_frequencies(frequencies: &mut [u32; ALPHABET_SIZE], bits: u32) -> io::Result<()> {
+    let total = 1 << bits;
 
-    if sum == 0 || sum == (1 << bits) {
-        return;
+    let mut sum = frequencies
+        .iter()
+        .try_fold(0u32, |sum, &f| sum.checked_add(f))
+        .filter(|&sum| sum <= total)
+        .ok_or_else(invalid_frequencies)?;
+
+    if sum == 0 || sum == total {
+        return Ok(());
     }
 
     let mut shift = 0;
 
-    while sum < (1 << bits) {
+    while sum < total {
         sum *= 2;
         shift += 1;
+    }
+
+    // The stored frequencies sum to a power of 2. Otherwise, the scaled frequencies exceed the
+    // range of the cumulative frequency taken from a state.
+    if sum != total {
+        return Err(invalid_frequencies());
     }
 
     for f in frequencies {
         *f <<= shift;
     }
+
+    Ok(())
+}
+
+fn invalid_frequencies() -> io::Error {
+    io::Error::new(io::ErrorKind::InvalidData, "invalid frequency table")
 }
 
 fn read_frequencies(src: &mut &[u8]) -> io::Result<[u32; ALPHABET_SIZE]> {
@@ -67,7 +85,7 @@ fn read_frequencies(src: &mut &[u8]) -> io::Result<[u32; ALPHABET_SIZE]> {
         }
     }
 
-    normalize_frequencies(&mut frequencies, NORMALIZATION_BITS);
+    normalize_frequencies(&mut frequencies, NORMALIZATION_BITS)?;
 
     Ok(frequencies)
 }
